@@ -14,7 +14,8 @@ RULE = ('exhaustive: n=1..6 and all 2^n-1 non-empty ascending subsets x state ki
         'prefix -> measure(subset, seed) -> suffix -> second measure (overlapping subsets), executed twice. Oracle: Born marginals by explicit summation, '
         'projection with an explicit bit mask, reference state tracked through the dense reference unitary of the prefix/suffix. Non-trivial = the '
         'complement of the subset splits into >=2 groups or the state has a zero-probability outcome. Distinct = (n, subset, state kind).'
-        ' States also as strided / read-only arrays, real float64 and integer basis states, index also as (negative-stride) integer array.')
+        ' States also as strided / read-only arrays, real float64 and integer basis states, index also as (negative-stride) integer array.'
+        " The same input again after set_args on the circuit's gates; the returned bit list is edited before the repeated call.")
 ASSUMPTIONS = ['no frequency test: the property claims support and Born probabilities, not a sampling distribution',
                'input states are normalised (np.random.Generator.choice requires probabilities summing to one)',
                'float32/complex64 states are outside the domain for the same reason: a state normalised to single precision has probabilities summing to one '
